@@ -116,6 +116,22 @@ CLAIMED = {
         "That ObjCrossRef.position_end is the parse node's end is a CALL-site fact of process_node not yet under "
         "contract (assumed). list.sort / sorted are modelled as 'permutation ordered by the inlined key'.",
         "DESIGN.md 5/C34", ""),
+    "C21": (
+        "TextXVisitor.visit_str_match, the one place where a grammar string literal becomes a matcher, is proved for "
+        "every literal text, every autokwd / ignore_case value and every child list: when autokwd is on and the keyword "
+        "pattern matches the whole literal (the literal looks like an identifier) the result is a compiled RegExMatch "
+        "whose pattern is the literal followed by \\b, printed as the literal, with the metamodel's ignore_case; in "
+        "every other case - in particular for every literal when autokwd is off - the result is StrMatch(literal, "
+        "ignore_case), i.e. exactly the construction made without autokwd, and the keyword pattern is not even consulted "
+        "when autokwd is off. That a \\b-terminated regex refuses a following word character and otherwise agrees with "
+        "the string matcher is Arpeggio + re (assumed); it is validated with the real metamodel and parser on a bounded "
+        "battery of literals x following texts, reported separately and never counted as proved.",
+        "Assumed (A-RE, T-ARP): semantics of re patterns and of arpeggio.RegExMatch/StrMatch; keyword_regex.match/span "
+        "are modelled by an uninterpreted prefix-length function; decode_escapes is an uninterpreted pure function. "
+        "The 'same model as without autokwd' sentence of the statement therefore rests on proved identical matcher "
+        "construction for non-identifier literals plus the assumed agreement of the two matchers for identifier-like "
+        "ones when no word character follows (bounded battery only).",
+        "DESIGN.md 5/C21, 11.2", "; bounded battery with the real parser for the assumed matcher semantics"),
 }
 
 NA = {
@@ -125,7 +141,25 @@ NA = {
            "comparing them would be translation validation / language equivalence, a different family.",
 }
 
-PENDING_REASON = "check not built yet in this round (contracts for the anchored functions are still being written)"
+PENDING_REASON = ("not claimed: no check is built for this property. The technique can express it (DESIGN.md 5 names the "
+                  "contracts that would decide it), but the verifier itself took the available time and no other technique "
+                  "was substituted (DESIGN.md 11.3). Nothing is asserted about it either way.")
+
+PARTIAL = {
+    "C03": "textx_isinstance is proved equal to the conformance relation (used by C07); the abstract-rule branch of "
+           "process_node and _determine_rule_types are not under contract",
+    "C02": "clauses tagged C02 sit on the process_node assignment-step units and verify, but _update_attr_multiplicities "
+           "and visit_assignment are not under contract",
+    "C05": "get_model and get_parent_of_type are proved; get_children / get_children_of_type and the parent assignment "
+           "in process_node are not under contract",
+    "C08": "the append-in-order clause of the resolution loop body verifies; cross-reference collection order in "
+           "process_node is only partly under contract",
+    "C09": "the per-step accounting clause of the resolution loop body verifies; the fixpoint loop of "
+           "parse_tree_to_objgraph is not under contract",
+    "C17": "pre_ref_resolution_callback is proved; the loaders, the cache branch and the lookup order are not under contract",
+    "C18": "ModelRepository.remove_model and GlobalModelRepository.remove_model are proved; the exception handlers that "
+           "call them are not under contract",
+}
 
 
 def main():
@@ -149,7 +183,11 @@ def main():
     for pid in props:
         if pid in CLAIMED:
             continue
-        na.append({"property_id": pid, "reason": NA.get(pid, PENDING_REASON)})
+        reason = NA.get(pid, PENDING_REASON)
+        if pid in PARTIAL:
+            reason += (" Partial units exist (" + PARTIAL[pid] + "); that is too small a part of the statement to "
+                       "register a check that would look green.")
+        na.append({"property_id": pid, "reason": reason})
     m = {
         "version": 1,
         "setup_cmd": "./tools/setup",
@@ -167,7 +205,7 @@ def main():
             "path": "txvc/",
             "serves_properties": sorted(CLAIMED),
             "kind_free_text": "VC generator + path-wise symbolic executor for Python (ast of the real sources), "
-                              "contracts/invariants/ghost state in /verif/contracts, z3 + cvc5, FST and FIN back ends",
+                              "contracts/invariants/ghost state in /verif/contracts, z3 + cvc5",
         }],
         "checks": checks,
         "not_applicable": na,
